@@ -7,6 +7,7 @@
     body may raise any exception - [EUser e] for every [e], i.e. BaseException subclasses too. *)
 From Coq Require Import List ZArith Bool Arith Lia.
 From ICV Require Import Run RunCase RunRef RunProofs RunRefine.
+From ICV Require Base Bind Checker CheckerCase CheckerSpec CheckerOracle CheckerSurface.
 Import ListNotations.
 
 (** After a checked call ends in any way, the suspension state is exactly what it was before. *)
@@ -50,3 +51,22 @@ Example C11_nonvacuous :
   = [([EvSite (SPre 0 0 0); EvBare (TFn 0); EvSite (SBody 0); EvRaise (EUser 10%Z)], OExn (EUser 10%Z), []);
      ([EvSite (SPre 0 0 0); EvBare (TFn 0); EvSite (SBody 0); EvRaise (EUser 10%Z)], OExn (EUser 10%Z), [])].
 Proof. vm_compute. reflexivity. Qed.
+
+(** The same for whole checked calls of the checker model - groups of alternative preconditions, snapshots, error
+    factories, invariants before and after, all callable kinds, sync and async: for every case whose contracts and
+    snapshots are told apart by their numbers and whose invariants are plain functions, the first exception raised by
+    user code - a condition, a truth test, a capture, an error factory, the body - ends the call and surfaces as that very
+    object or as the library's wrapper chaining it.  This is the executable statement [spec_C11_surface] that the check
+    evaluates on the implementation's observation, proved of the model's observation for all cases. *)
+Theorem C11_first_exception_surfaces_in_a_checked_call (c : CheckerCase.ccase) :
+  CheckerSurface.wf_case c ->
+  CheckerOracle.spec_C11_surface c (fst (CheckerCase.run_case c)) (snd (CheckerCase.run_case c)) = true.
+Proof. exact (CheckerSurface.surface_sound c). Qed.
+Print Assumptions C11_first_exception_surfaces_in_a_checked_call.
+
+(** non-vacuity: f(x) with two preconditions, the second raises exception object 8: it is what the caller gets *)
+Example C11_surface_nonvacuous :
+  CheckerSurface.wf_case CheckerSurface.ex_case
+  /\ snd (CheckerCase.run_case CheckerSurface.ex_case) = inr (Checker.XObj 8)
+  /\ List.length (fst (CheckerCase.run_case CheckerSurface.ex_case)) = 2%nat.
+Proof. exact CheckerSurface.surface_nonvacuous. Qed.
